@@ -5,6 +5,9 @@
 (***************************************************************************)
 ValidKinds == {"defines", "usesOwn", "usesOther", "plain", "empty"}
 FaultKinds == {"undecodable", "dirnamed", "dangling", "unserialisable", "faultDefines"}
+\* files that parse and serialise but whose OUTPUT cannot be written (text that cannot be encoded; the output name is taken
+\* by a directory).  The property demands nothing for these files themselves - only that the others are unaffected.
+WriteFaultKinds == {"unencodable", "outdir"}
 \* a valid stylesheet's output in a directory run is what the tool produces for that file alone
 IsolationP(kind, out, single) == kind \in ValidKinds => out = single
 \* a faulty file is reported and produces no output; a valid one is processed and not reported
